@@ -89,6 +89,7 @@ Print Assumptions worklist_entries_justified.
 Theorem same_pin_source_one_domain : forall ps nd nd' ins ins',
   nkind nd = nkind nd' ->
   Forall2 (oclk_equiv ps) (nclocks nd) (nclocks nd') ->
+  Forall2 (oclk_equiv ps) (ninclk nd) (ninclk nd') ->
   Forall2 (scd_equiv ps) ins ins' ->
   check_valid ps nd ins = check_valid ps nd' ins'.
 Proof. exact check_valid_equiv. Qed.
@@ -96,8 +97,8 @@ Print Assumptions same_pin_source_one_domain.
 
 Example same_pin_source_example :
   pin_source ex_marked 2 = 0
-  /\ check_valid (pin_source ex_marked) (mkNode KReg 9 [] 1 [Some 0]) [SClock 2; SConst; SClock 0] = true
-  /\ check_valid (pin_source ex_marked) (mkNode KReg 9 [] 1 [Some 0]) [SClock 1; SConst; SClock 0] = false.
+  /\ check_valid (pin_source ex_marked) (mkNode KReg 9 [] 1 [Some 0] [] []) [SClock 2; SConst; SClock 0] = true
+  /\ check_valid (pin_source ex_marked) (mkNode KReg 9 [] 1 [Some 0] [] []) [SClock 1; SConst; SClock 0] = false.
 Proof. exact (conj (proj1 ex_pin_source) ex_same_source). Qed.
 
 (* The meaning of the transcribed base rule (BaseNode::checkValidInputClocks): it passes exactly when
@@ -186,4 +187,37 @@ Proof.
   exact (conj (proj1 drv_export_only_crossing) (conj (proj2 drv_export_only_crossing)
         (conj (proj1 (proj2 drv_verdicts)) (conj (proj1 (proj2 (proj2 drv_verdicts)))
         (proj1 (proj2 (proj2 (proj2 (proj2 drv_verdicts))))))))).
+Qed.
+
+(* ------------------------------------------------------------------ *)
+(* External modules (frontend ExternalModule::Node_External_Exposed): every input port has a declared
+   clock, every output is a source of its declared clock. *)
+
+(* The transcribed rule passes exactly when EVERY port -- first, middle or last -- carries a constant
+   or a signal of the pin source of the clock declared for that port; an unknown domain on any port
+   is refused. *)
+Theorem external_rule_meaning : forall ps nd ins, ext_check ps nd ins = true <-> ext_ok ps nd ins.
+Proof. exact ext_check_spec. Qed.
+Print Assumptions external_rule_meaning.
+
+(* In an accepted design every input port of every external module is only reached by signals of the
+   port's declared clock domain (cdc_sound / crossing_is_rejected cover the external-module crossing
+   [cr_ext] as one of the kinds of [crossing_at]). *)
+Theorem cdc_sound_external_module : forall n dom,
+  wf n = true -> domains_ok n dom = true -> flagged n dom = [] ->
+  forall v nd i q s,
+    get_node n v = Some nd -> nkind nd = KExt ->
+    nth_error (nins nd) i = Some (Some q) -> influences n s q ->
+    exists d ic, s = SrcClk d /\ nth_error (ninclk nd) i = Some (Some ic)
+                 /\ pin_source n d = pin_source n ic.
+Proof. exact cdc_sound_external_thm. Qed.
+Print Assumptions cdc_sound_external_module.
+
+Example external_module_examples :
+  has_crossing ext_first_port /\ ~ has_crossing ext_clean
+  /\ flagged ext_first_port (infer_real ext_first_port) = [2%N]
+  /\ flagged ext_clean (infer_real ext_clean) = [].
+Proof.
+  exact (conj (proj1 ext_crossing) (conj (proj2 ext_crossing)
+        (conj (proj1 ext_verdicts) (proj1 (proj2 ext_verdicts))))).
 Qed.
